@@ -74,4 +74,14 @@ SPECS = {
             "rule": "one evaluation = one simulated attack of 1..6 sequential exchanges (one worker) through the real hit()/net/http.Client over a fake transport: per exchange a generated target (methods incl. odd-case ones, 0..6 headers with arbitrary key case / repeated keys / Host, bodies 0..70000 bytes, 1 in 25 malformed URLs), a response chain of 0..4 redirects plus a final response (status 100..599, 0..5 headers, bodies 0..200000 bytes in tape-chosen chunks, (n>0,EOF)), and faults: transport error on any hop, redirect-policy refusal, body read error at any offset, fake time passing before the response and between chunks; non-trivial = at least one fault fired; distinct = distinct event-log hashes",
             "real": ["Attacker.hit, Target.Request, Redirects policy, MaxBody, ChunkedBody, net/http.Client"], "stub": ["http.RoundTripper, response bodies, targeter, pacer, clock (synctest)"],
             "assumptions": ["on failed exchanges only 'error non-empty and code outside [200,400)' is asserted (byte counts are not: weaker reading)", "req.Host is judged only for a header key spelled exactly Host", "intermediate redirect bodies belong to net/http and are not judged"]},
+    "C14": {"jobs": [{"engine": "stream", "scenario": "targets-C14", "race": False, "quick": 20000, "thorough": 2000000}],
+            "rule": "one evaluation = a list of 1..50 targets rendered through the documented grammar (http format: request lines, headers with arbitrary key case / repeated keys / keys also in the defaults, @file bodies in a sandbox directory, blank-line separators where the manual shows them, comment lines in every position incl. right after a bare request line; JSON format: written by NewJSONTargetEncoder or by encoding/json) with default headers whose value slices have spare capacity or not and an optional default body, read back through a chunking SimReader; returned targets are deep-copied at return time and re-compared after all later calls, the defaults are compared including their spare capacity; distinct = distinct event-log hashes",
+            "real": ["NewHTTPTargeter, NewJSONTargeter, NewJSONTargetEncoder, peekingScanner"], "stub": ["source reader (SimReader: chunk sizes, split lines, (n>0,EOF), zero-length reads)", "body files (real files in a per-process sandbox)"],
+            "not_simulated": ["the target lists themselves are seeded workload generation; under concurrent draws the same targeters are exercised by C15"],
+            "assumptions": ["a header block is always followed by a blank line (as in every example of the manual); read errors of the source are outside the statement and not judged here"]},
+    "C16": {"jobs": [{"engine": "stream", "scenario": "fuzz-C16", "race": False, "quick": 60000, "thorough": 6000000}],
+            "rule": "one evaluation = a valid document of one of five kinds (gob/CSV/JSON result streams, http/JSON target files) written to a SimFile and subjected to 1..8 storage faults (lost, duplicated, reordered, misdirected/spliced writes; bit flips, truncation, garbage ranges, deleted ranges, 0xff runs) or replaced by random bytes, then fed through a chunking SimReader with zero-length reads to a parser (the matching one, DecoderFor, or a foreign one); judged: no panic, an error or end within len(input)+2 successful calls, Read calls <= 16*len+4096, allocation <= 64 MiB + 256*len, return within 45 s wall; distinct = distinct event-log hashes",
+            "real": ["gob/CSV/JSON decoders, DecoderFor, NewHTTPTargeter, NewJSONTargeter"], "stub": ["storage (SimFile faults), reader (SimReader)"],
+            "not_simulated": ["the bucket, rate, header, max-body, connect-to and resolver-address parsers take a string: no stream, fault or schedule applies; they are fed mutated values by the cmd engine's flag scenario (plain seeded generation)"],
+            "assumptions": ["body-file references are rewritten into the sandbox directory after mutation (as the property prescribes)"]},
 }
